@@ -524,6 +524,74 @@ func checkC19(c *Check) {
 		}
 	}
 	c.Obl(okRet, "C19.R1", "ignore-branches", P.Pos(rec.Pos()), "ignore branches return nil (or the fetch error)", "an ignore branch of Reconcile returns an unexpected error")
+	// … and an update is ignored only for the enumerated reasons: every return that can be reached without the write lies
+	// behind the failed fetch, a name that is not in the index, a Secret that is being deleted, or a missing / empty
+	// datum. A further reason to skip (a version or content comparison, a rate limit) keeps a rotation from the filters.
+	negGuard := func(fs FactSet) bool {
+		for cond, pol := range fs {
+			if getC != nil {
+				if bo, isB := cond.(*ssa.BinOp); isB && isNilConst(bo.Y) && (bo.Op == token.NEQ) == pol {
+					if gc, _, isC := asCall(resolveCell(stripConv(bo.X))); isC && gc == getC {
+						return true
+					}
+				}
+			}
+			if zc, _, ok := asCall(cond); ok && strings.HasSuffix(funcID(calleeOf(zc).Obj), "Time.IsZero") && !pol && depFields(zc.Common().Args[0])["DeletionTimestamp"] {
+				return true
+			}
+		}
+		if lk != nil {
+			if e := extractOf(lk, 1); e != nil {
+				if v, k := fs.truth(e); k && !v {
+					return true
+				}
+			}
+		}
+		if dataLk != nil {
+			if e := extractOf(dataLk, 1); e != nil {
+				if v, k := fs.truth(e); k && !v {
+					return true
+				}
+			}
+			if val := extractOf(dataLk, 0); val != nil {
+				if fs.intFact(lenCallOf(rec, val), func(op token.Token, k int64) bool { return op == token.EQL && k == 0 }) {
+					return true
+				}
+			}
+		}
+		return false
+	}
+	var justified func(b *ssa.BasicBlock, depth int) bool
+	justified = func(b *ssa.BasicBlock, depth int) bool {
+		if negGuard(ff.In[b]) {
+			return true
+		}
+		if depth == 0 || len(b.Preds) == 0 {
+			return false
+		}
+		for _, p := range b.Preds {
+			if negGuard(ff.OnEdge(p, b)) {
+				continue
+			}
+			// a block that only forwards (short-circuit `a || b` lowering): look one step further
+			if len(p.Instrs) > 3 || !justified(p, depth-1) {
+				return false
+			}
+		}
+		return true
+	}
+	for i, r := range returnsOf(rec) {
+		if mustPassBefore(rec, r, func(x ssa.Instruction) bool { return x == ssa.Instruction(wr) }) {
+			continue
+		}
+		// the final return after the write loop is reachable without the write only through an empty index entry: it is
+		// dominated by the guards that hold at the write
+		if negGuard(ff.At(r)) || justified(r.Block(), 3) || (okIdx && delOK && dataOK && wr.Block() != r.Block() && blockReaches(wr.Block(), r.Block())) {
+			c.Pass("C19.R1", fmt.Sprintf("skip-reason/return#%d", i+1), P.Pos(instrPos(r)), "ignored for an enumerated reason")
+			continue
+		}
+		c.Fail("C19.R1", fmt.Sprintf("skip-reason/return#%d", i+1), P.Pos(instrPos(r)), "Reconcile can return without updating the filters for a reason other than {fetch failed, not in the index, being deleted, no or empty client-secret}: a rotated secret may never reach the filters that reference it")
+	}
 
 	// ---- R2
 	// written object: element of the slice found in the index
